@@ -56,7 +56,14 @@ impl<'de> serde::de::Deserializer<'de> for KeyDeserializer {
     {
         if serde_spanned::__unstable::is_spanned(name, fields) {
             if let Some(span) = self.span.clone() {
-                return visitor.visit_map(super::SpannedDeserializer::new(self.key.get(), span));
+                return visitor
+                    .visit_map(super::SpannedDeserializer::new(self.key.get(), span.clone()))
+                    .map_err(|mut e: Self::Error| {
+                        if e.span().is_none() {
+                            e.set_span(Some(span));
+                        }
+                        e
+                    });
             }
         }
         self.deserialize_any(visitor)
